@@ -31,7 +31,10 @@ class NextRequest(Request, MutableMapping[str, Any]):
 
 def ensure_next(iterable: Iterable[bytes]) -> Iterable[bytes]:
     iterator = iter(iterable)
-    first_chunk = next(iterator)
+    try:
+        first_chunk = next(iterator)
+    except StopIteration:
+        return ()
 
     def generator():
         yield first_chunk
